@@ -14,6 +14,7 @@ import (
 	"time"
 
 	"verifmc/explore"
+	"verifmc/fixture"
 	"verifmc/scen"
 )
 
@@ -93,6 +94,7 @@ func main() {
 	if *deadline > 0 {
 		dl = time.Unix(*deadline, 0)
 	}
+	defer fixture.Cleanup()
 	in := bufio.NewScanner(os.Stdin)
 	for in.Scan() {
 		line := strings.TrimSpace(in.Text())
